@@ -369,6 +369,12 @@ func c05CheckBLSSig(g *gen.G, b []byte, kind string, pk crypto.PublicKey, exact 
 		if _, err := crypto.AggregateBLSSignatures([]crypto.Signature{exact, in}); !crypto.IsInvalidSignatureError(err) {
 			g.Fatalf("AggregateBLSSignatures([valid, %s string %x]) = %v: expected the invalid-signature error", kind, b, err)
 		}
+		if _, err := crypto.AggregateBLSSignatures([]crypto.Signature{in, exact}); !crypto.IsInvalidSignatureError(err) {
+			g.Fatalf("AggregateBLSSignatures([%s string %x, valid]) = %v: expected the invalid-signature error", kind, b, err)
+		}
+		if _, err := crypto.AggregateBLSSignatures([]crypto.Signature{exact, in, exact}); !crypto.IsInvalidSignatureError(err) {
+			g.Fatalf("AggregateBLSSignatures([valid, %s string %x, valid]) = %v: expected the invalid-signature error", kind, b, err)
+		}
 	}
 	// verification: only the exact signature is accepted, everything else (false, nil)
 	ok, verr := pk.Verify(b, []byte("c05"), crypto.NewExpandMsgXOFKMAC128("c05"))
@@ -529,6 +535,9 @@ func TestC05_ECDSAPublic(t *testing.T) {
 				x.Add(x, one)
 			}
 			kind = "nonResidueX"
+		case compressed && g.Chance("otherSEC1Form", 1, 8): // the uncompressed / hybrid SEC1 forms offered to the compressed decoder
+			pre := []byte{0x04, 0x06, 0x07, 0x02, 0x03}[g.Pick("sec1Prefix", 5)]
+			b, kind = append([]byte{pre}, raw...), "sec1UncompressedOrHybridForm"
 		case compressed:
 			b, kind = mutate(g, comp, 1, 32, 1, c.c.P, false)
 		case g.Chance("otherCurvePoint", 1, 8): // a point of the other curve
